@@ -228,45 +228,135 @@ Proof.
   - rewrite map_length. unfold zseq. rewrite zrange_length. f_equal. lia.
 Qed.
 
-(** the first write to a new fixed-size dataset in fill mode: everything before and after the transfer
-    is written with the fill value, and the element gets its full length *)
+(* ---- the chunked fill loops of hdf_xdr_NCvdata ------------------------------------------------ *)
+Lemma min_macro : forall a b, (if Z.eqb (if Z.ltb a b then 1 else 0) 0 then b else a) = Z.min a b.
+Proof. intros. destruct (a <? b) eqn:E; simpl; [apply Z.ltb_lt in E | apply Z.ltb_ge in E]; lia. Qed.
+
+Lemma lead_step_spec : forall b c, vdata_lead_loop_step b c = (b - c, Z.min c (b - c)).
+Proof. intros. unfold vdata_lead_loop_step. cbv zeta. rewrite min_macro. reflexivity. Qed.
+Lemma trail_step_spec : forall b c, vdata_trail_loop_step b c = (b - c, Z.min c (b - c)).
+Proof. intros. unfold vdata_trail_loop_step. cbv zeta. rewrite min_macro. reflexivity. Qed.
+Lemma lead_more_spec : forall b c, truth (vdata_lead_loop_more b c) = (0 <? b).
+Proof. intros. unfold truth, vdata_lead_loop_more. destruct (0 <? b); reflexivity. Qed.
+Lemma trail_more_spec : forall b c, truth (vdata_trail_loop_more b c) = (0 <? b).
+Proof. intros. unfold truth, vdata_trail_loop_more. destruct (0 <? b); reflexivity. Qed.
+Lemma lead_init_spec : forall b, vdata_lead_loop_init b = Z.min b MAX_SIZE.
+Proof. intros. unfold vdata_lead_loop_init, MAX_SIZE. apply min_macro. Qed.
+Lemma trail_init_spec : forall b, vdata_trail_loop_init b = Z.min b MAX_SIZE.
+Proof. intros. unfold vdata_trail_loop_init, MAX_SIZE. apply min_macro. Qed.
+
+(** the loop as the code performs it (first piece min(buf, MAX_SIZE); then "buf -= chunk; chunk = min(chunk, buf)"
+    while buf > 0) writes pieces of at most MAX_SIZE bytes whose sizes add up to exactly buf, for EVERY buf > 0 *)
+Lemma fill_chunks_sum : forall step more,
+  (forall b c, step b c = (b - c, Z.min c (b - c))) -> (forall b c, truth (more b c) = (0 <? b)) ->
+  forall fuel buf, 0 < buf -> buf <= Z.of_nat fuel * MAX_SIZE ->
+  exists l, fill_chunks step more fuel buf (Z.min buf MAX_SIZE) = Some l /\ sumZ l = buf /\
+            Forall (fun c => 0 < c <= MAX_SIZE) l.
+Proof.
+  intros step more Hs Hm. induction fuel; intros buf Hb Hf. simpl in Hf; lia.
+  cbn [fill_chunks]. rewrite Hs, Hm.
+  assert (HM : MAX_SIZE = 1000000) by reflexivity.
+  destruct (Z_le_gt_dec buf MAX_SIZE).
+  - rewrite Z.min_l by lia. replace (buf - buf) with 0 by lia. simpl (0 <? 0).
+    exists [buf]. split; auto. split. simpl; lia. constructor; [lia | constructor].
+  - rewrite Z.min_r by lia.
+    replace (0 <? buf - MAX_SIZE) with true by (symmetry; apply Z.ltb_lt; lia).
+    rewrite (Z.min_comm MAX_SIZE).
+    destruct (IHfuel (buf - MAX_SIZE)) as [l [E [S F]]]; [lia | lia |].
+    rewrite E. exists (MAX_SIZE :: l). split; auto. split. unfold sumZ in *. cbn [fold_right]. lia.
+    constructor; [lia | auto].
+Qed.
+
+Lemma chunk_fuel_enough : forall b, 0 <= b -> b <= Z.of_nat (chunk_fuel b) * MAX_SIZE.
+Proof.
+  intros. unfold chunk_fuel. assert (HM : MAX_SIZE = 1000000) by reflexivity.
+  pose proof (Z.div_mod b MAX_SIZE ltac:(lia)). pose proof (Z.mod_pos_bound b MAX_SIZE ltac:(lia)).
+  assert (0 <= b / MAX_SIZE) by (apply Z.div_pos; lia).
+  rewrite Z2Nat.id by lia. nia.
+Qed.
+
+Lemma lead_chunks : forall b, 0 < b ->
+  exists l, fill_chunks vdata_lead_loop_step vdata_lead_loop_more (chunk_fuel b) b (vdata_lead_loop_init b) = Some l /\
+            sumZ l = b /\ Forall (fun c => 0 < c <= MAX_SIZE) l.
+Proof.
+  intros. rewrite lead_init_spec.
+  apply (fill_chunks_sum _ _ lead_step_spec lead_more_spec); auto. apply chunk_fuel_enough. lia.
+Qed.
+Lemma trail_chunks : forall b, 0 < b ->
+  exists l, fill_chunks vdata_trail_loop_step vdata_trail_loop_more (chunk_fuel b) b (vdata_trail_loop_init b) = Some l /\
+            sumZ l = b /\ Forall (fun c => 0 < c <= MAX_SIZE) l.
+Proof.
+  intros. rewrite trail_init_spec.
+  apply (fill_chunks_sum _ _ trail_step_spec trail_more_spec); auto. apply chunk_fuel_enough. lia.
+Qed.
+
+(** the first write to a new fixed-size dataset in fill mode, through the chunked fill loops the code performs,
+    for every offset and length: everything before and after the transfer is written with the fill value in
+    pieces of at most MAX_SIZE bytes, the data are transferred at exactly w * esz, and the element gets its
+    full length *)
 Lemma first_write_fills_lemma : forall m w L count vals,
   m_store m = [] -> m_nofill m = false -> 0 < m_esz m ->
   0 <= w -> 0 <= count -> w + count <= L -> var_len m = L * m_esz m ->
   length vals = Z.to_nat count ->
-  exists m' tr,
-    xdr_vdata m true (w * m_esz m) count vals = Some (m', tr, []) /\
+  exists m' lc tc,
+    xdr_vdata m true (w * m_esz m) count vals =
+      Some (m', chunk_transfers 0 lc ++ [TWrite (w * m_esz m) (count * m_esz m)] ++
+                chunk_transfers (w * m_esz m + count * m_esz m) tc, []) /\
+    sumZ lc = w * m_esz m /\ sumZ tc = (L - w - count) * m_esz m /\
+    Forall (fun c => 0 < c <= MAX_SIZE) (lc ++ tc) /\
     m_store m' = repeat (Val (fill_of m)) (Z.to_nat w) ++ vals ++
                  repeat (Val (fill_of m)) (Z.to_nat (L - w - count)) /\
     Z.of_nat (length (m_store m')) * m_esz m = var_len m.
 Proof.
   intros m w L count vals Hst Hnf Hesz Hw Hc HL Hlen Hv.
-  unfold xdr_vdata, elem_length. rewrite Hst, Hnf. cbn [length Z.of_nat].
+  unfold xdr_vdata, elem_length. cbv zeta. rewrite Hst, Hnf. cbn [length Z.of_nat].
   replace (m_esz m * 0) with 0 by lia. simpl andb. cbv iota.
-  replace (w * m_esz m / m_esz m) with w by (symmetry; apply Z.div_mul; lia).
   set (f := Val (fill_of m)).
-  assert (S1 : (if truth (vdata_lead_fill 0 (w * m_esz m)) && true then repeat f (Z.to_nat w) else []) = repeat f (Z.to_nat w)).
+  (* leading fill *)
+  assert (LEAD : exists lc,
+     (if truth (vdata_lead_fill 0 (w * m_esz m)) && true
+      then fill_chunks vdata_lead_loop_step vdata_lead_loop_more (chunk_fuel (w * m_esz m)) (w * m_esz m)
+                       (vdata_lead_loop_init (w * m_esz m)) else Some []) = Some lc /\
+     sumZ lc = w * m_esz m /\ Forall (fun c => 0 < c <= MAX_SIZE) lc /\
+     (if truth (vdata_lead_fill 0 (w * m_esz m)) && true then sumZ lc else w * m_esz m) = w * m_esz m /\
+     (if truth (vdata_lead_fill 0 (w * m_esz m)) && true then repeat f (Z.to_nat (w * m_esz m / m_esz m)) else [])
+       = repeat f (Z.to_nat w)).
   { unfold truth, vdata_lead_fill. simpl (0 <=? 0). cbv iota. simpl (1 =? 0). simpl negb. simpl andb.
-    destruct (0 <? w * m_esz m) eqn:E; simpl; auto.
-    apply Z.ltb_ge in E. assert (w = 0) by nia. subst. reflexivity. }
-  rewrite S1.
+    destruct (0 <? w * m_esz m) eqn:E; simpl negb; simpl andb; cbv iota.
+    - apply Z.ltb_lt in E. destruct (lead_chunks _ E) as [l [A [B C]]]. exists l.
+      repeat split; auto. rewrite Z.div_mul by lia. reflexivity.
+    - apply Z.ltb_ge in E. assert (w = 0) by nia. subst. exists []. repeat split; auto. }
+  destruct LEAD as [lc [E1 [S1 [F1 [P1 R1]]]]]. rewrite E1.
+  rewrite !P1. rewrite R1.
+  replace (w * m_esz m / m_esz m) with w by (symmetry; apply Z.div_mul; lia).
   rewrite (write_cells_end (repeat f (Z.to_nat w)) w vals) by (rewrite repeat_length; lia).
   unfold vdata_bytes_left. rewrite Hlen.
   replace (L * m_esz m - (w * m_esz m + count * m_esz m)) with ((L - w - count) * m_esz m) by lia.
   replace ((w * m_esz m + count * m_esz m) / m_esz m) with (w + count)
     by (replace (w * m_esz m + count * m_esz m) with ((w + count) * m_esz m) by lia; symmetry; apply Z.div_mul; lia).
-  replace ((L - w - count) * m_esz m / m_esz m) with (L - w - count) by (symmetry; apply Z.div_mul; lia).
-  assert (S3 : forall st, Z.of_nat (length st) = w + count ->
-     (if truth (vdata_trail_fill 0 ((L - w - count) * m_esz m)) && true
-      then write_cells st (w + count) (repeat f (Z.to_nat (L - w - count))) else st)
-     = st ++ repeat f (Z.to_nat (L - w - count))).
-  { intros st Hl. unfold truth, vdata_trail_fill. simpl (0 <=? 0). cbv iota. simpl (1 =? 0). simpl negb. simpl andb.
-    destruct (0 <? (L - w - count) * m_esz m) eqn:E; simpl.
-    - apply write_cells_end. lia.
-    - apply Z.ltb_ge in E. assert (L - w - count = 0) by nia. rewrite H. simpl. rewrite app_nil_r. reflexivity. }
-  eexists. eexists. split; [reflexivity|].
-  cbn [m_store set_store]. rewrite S3 by (rewrite app_length, repeat_length; lia).
-  split. rewrite <- app_assoc. reflexivity.
+  set (bl := (L - w - count) * m_esz m).
+  assert (TRAIL : exists tc,
+     (if truth (vdata_trail_fill 0 bl) && true
+      then fill_chunks vdata_trail_loop_step vdata_trail_loop_more (chunk_fuel bl) bl (vdata_trail_loop_init bl)
+      else Some []) = Some tc /\
+     sumZ tc = bl /\ Forall (fun c => 0 < c <= MAX_SIZE) tc /\
+     forall st, Z.of_nat (length st) = w + count ->
+       (if truth (vdata_trail_fill 0 bl) && true
+        then write_cells st (w + count) (repeat f (Z.to_nat (sumZ tc / m_esz m))) else st)
+       = st ++ repeat f (Z.to_nat (L - w - count))).
+  { unfold truth, vdata_trail_fill. simpl (0 <=? 0). cbv iota. simpl (1 =? 0). simpl negb. simpl andb.
+    destruct (0 <? bl) eqn:E; simpl negb; simpl andb; cbv iota.
+    - apply Z.ltb_lt in E. destruct (trail_chunks _ E) as [l [A [B C]]]. exists l.
+      repeat split; auto. intros st Hl. rewrite B. unfold bl. rewrite Z.div_mul by lia.
+      apply write_cells_end. lia.
+    - apply Z.ltb_ge in E. unfold bl in *. assert (L - w - count = 0) by nia. exists [].
+      repeat split; auto. simpl; lia. intros. rewrite H. simpl. rewrite app_nil_r. reflexivity. }
+  destruct TRAIL as [tc [E2 [S2 [F2 W2]]]]. rewrite E2.
+  exists (set_store m (repeat f (Z.to_nat w) ++ vals ++ repeat f (Z.to_nat (L - w - count))) (m_numrecs m)), lc, tc.
+  rewrite W2 by (rewrite app_length, repeat_length; lia).
+  rewrite <- app_assoc.
+  split; [reflexivity|]. split; auto. split; auto. split. apply Forall_app; auto.
+  cbn [m_store set_store]. split; auto.
   rewrite !app_length, !repeat_length. nia.
 Qed.
 
